@@ -152,3 +152,19 @@ Proof.
   - intros H. rewrite H. reflexivity.
   - intros st Hin. cbn in Hin. destruct Hin as [H|[H|[H|[H|[H|[]]]]]]; subst st; reflexivity.
 Qed.
+
+(* a backup that fails in any stage returns with bkp_stage = 0 and no lock held: the next backup is accepted *)
+Theorem failed_backup_releases : forall c s0 ts2 ts5 evM evA k,
+  let (s, held) := backup_run_fail c s0 ts2 ts5 evM evA k in
+  p_stage s = 0 /\ held = false /\ backup_start s <> None.
+Proof.
+  intros c s0 ts2 ts5 evM evA k. unfold backup_run_fail.
+  destruct (checkpoint c (set_stage s0 BKP_WAL_CLEANUP) false ts2) as [s1 e1].
+  destruct (run c (set_stage s1 BKP_MAIN_COPY) evM) as [s2 e2].
+  destruct (k <=? BKP_MAIN_COPY); [repeat split; unfold backup_start; cbn; discriminate|].
+  destruct (flush_wl c (set_stage s2 BKP_WAL_COPY1) false) as [s3 e3].
+  destruct (run c s3 evA) as [s4 e4].
+  destruct (k <=? BKP_WAL_COPY1); [repeat split; unfold backup_start; cbn; discriminate|].
+  destruct (savepoint c (set_stage s4 BKP_WAL_COPY2) ts5 true) as [s5 e5].
+  repeat split; unfold backup_start; cbn; discriminate.
+Qed.
